@@ -22,6 +22,9 @@ def run(run, model):
     run.do(fwd.forwarding, model, "C20.a-repr-forwarded", ("a_repr",))
     from . import rec
     run.do(rec.repr_coupling, model, "C20.filter-names")
+    # what the message shows must not depend on whether a variable happens to be None
+    run.do(rec.comprehension_env, model, "C20.comprehension-env")
+    run.do(rec.scope_restore, model, "C20.scope-restore")
     run.minimum("C20.sorted", 3)
     run.minimum("C20.a-repr", 8)
     run.minimum("C20.filter", 5)
